@@ -103,8 +103,9 @@ def encode_sequence(content, error=None, version=None, mode=None, mask=None,
         return segs
 
     def divide_into_chunks(data, num):
-        k, m = divmod(len(data), num)
-        return [data[i * k + min(i, m):(i + 1) * k + min(i + 1, m)] for i in range(num)]
+        # "step" keeps the two bytes of a Kanji / Hanzi character together
+        k, m = divmod(len(data) // step, num)
+        return [data[(i * k + min(i, m)) * step:((i + 1) * k + min(i + 1, m)) * step] for i in range(num)]
 
     def calc_qrcode_bit_length(char_count, ver_range, mode, encoding=None,
                                is_eci=False, is_sa=False):
@@ -135,7 +136,7 @@ def encode_sequence(content, error=None, version=None, mode=None, mask=None,
         """\
         Returns the number of symbols for the provided version.
         """
-        length = len(content)
+        length = len(content) // step
         ver_range = version_range(version)
         bit_length = calc_qrcode_bit_length(length, ver_range, mode, encoding,
                                             is_eci=eci, is_sa=True)
@@ -178,11 +179,14 @@ def encode_sequence(content, error=None, version=None, mode=None, mask=None,
         raise ValueError('This function cannot handle more than one mode (yet). Sorry.')
     mode = segments.modes[0]  # CHANGE iff more than one mode is supported!
     # Creating one QR code failed or max_no is not None
-    if mode == consts.MODE_NUMERIC:
-        content = str(content)
-    if symbol_count is not None and len(content) < symbol_count:
+    # Divide the encoded data (not the text) into chunks: All symbols must use
+    # the same encoding and the parity data refers to the encoded bytes
+    content, _, encoding = data_to_bytes(content,
+                                         encoding if mode != consts.MODE_HANZI else consts.HANZI_ENCODING)
+    step = 2 if mode in (consts.MODE_KANJI, consts.MODE_HANZI) else 1
+    if symbol_count is not None and len(content) // step < symbol_count:
         raise ValueError(f'The content is not long enough to be divided into {symbol_count} symbols')
-    sa_parity_data = calc_structured_append_parity(content)
+    sa_parity_data = reduce(xor, content)
     num_symbols = symbol_count or 16
     if version is not None:
         num_symbols = number_of_symbols_by_version(content, version, error, mode)
